@@ -445,7 +445,29 @@ func TestConcChild(t *testing.T) {
 						k := r.Intn(len(mine))
 						f := mine[k]
 						mine = append(mine[:k], mine[k+1:]...)
-						watchdog("eth_uninstallFilter", func() { api.UninstallFilter(f.id) })
+						if r.Chance(1, 2) {
+							// the same uninstall request twice at the same time (a client that retries, two tabs of one
+							// wallet): exactly one may succeed, and nothing may crash
+							var okCnt int64
+							var w2 sync.WaitGroup
+							for d := 0; d < 2+r.Intn(2); d++ {
+								w2.Add(1)
+								go func() {
+									defer w2.Done()
+									watchdog("eth_uninstallFilter(duplicate)", func() {
+										if api.UninstallFilter(f.id) {
+											atomic.AddInt64(&okCnt, 1)
+										}
+									})
+								}()
+							}
+							w2.Wait()
+							if okCnt > 1 {
+								atomic.AddInt64(&nbad, 1)
+							}
+						} else {
+							watchdog("eth_uninstallFilter", func() { api.UninstallFilter(f.id) })
+						}
 					}
 					time.Sleep(time.Duration(r.Intn(1500)) * time.Microsecond)
 				}
